@@ -31,108 +31,6 @@ from ..report import Report
 ORCH = "semantiva/execution/orchestrator/orchestrator.py"
 EXECUTE = "SemantivaOrchestrator.execute"
 
-# ---------------------------------------------------------------------------
-# freshness trees
-# ---------------------------------------------------------------------------
-SHARED = "shared"
-DEEP = "deep-fresh"
-
-
-class Fresh:
-    def __init__(self, children: Optional[Dict[object, object]] = None, default: object = SHARED):
-        self.children = children or {}
-        self.default = default  # freshness of children not listed
-
-    def child(self, key: object) -> object:
-        if key in self.children:
-            return self.children[key]
-        if "*" in self.children:
-            return self.children["*"]
-        return self.default
-
-
-COPY_CALLS = {"dict", "list", "copy", "set", "tuple", "sorted"}
-DEEP_CALLS = {"deepcopy"}
-
-
-def freshness(expr: ast.AST, env: Dict[str, object]) -> object:
-    """Abstract ownership of the value of *expr*: SHARED with the caller, DEEP (fully owned), or Fresh tree."""
-    if isinstance(expr, ast.Name):
-        return env.get(expr.id, DEEP if expr.id not in env else env[expr.id])
-    if isinstance(expr, ast.Constant):
-        return DEEP
-    if isinstance(expr, ast.Subscript):
-        base = freshness(expr.value, env)
-        if base == DEEP:
-            return DEEP
-        if base == SHARED:
-            return SHARED
-        key = expr.slice.value if isinstance(expr.slice, ast.Constant) else "*"
-        return base.child(key)  # type: ignore[union-attr]
-    if isinstance(expr, ast.Call):
-        name = call_attr(expr)
-        if name in DEEP_CALLS:
-            return DEEP
-        if name == "loads" and expr.args and isinstance(expr.args[0], ast.Call) and call_attr(expr.args[0]) == "dumps":
-            return DEEP
-        if name == "get" and isinstance(expr.func, ast.Attribute) and expr.args:
-            base = freshness(expr.func.value, env)
-            if base in (DEEP, SHARED):
-                return base
-            key = expr.args[0].value if isinstance(expr.args[0], ast.Constant) else "*"
-            return base.child(key)  # type: ignore[union-attr]
-        if name in COPY_CALLS:
-            src = expr.args[0] if expr.args else (expr.func.value if isinstance(expr.func, ast.Attribute) else None)
-            inner = freshness(src, env) if src is not None else DEEP
-            if inner == DEEP:
-                return DEEP
-            if inner == SHARED:
-                return Fresh(default=SHARED)
-            return Fresh(children=dict(inner.children), default=inner.default)  # type: ignore[union-attr]
-        if name == "cast" and len(expr.args) == 2:
-            return freshness(expr.args[1], env)
-        # result of any other call is owned by this function unless an argument is shared and it is an identity-like helper
-        return DEEP
-    if isinstance(expr, ast.Dict):
-        children: Dict[object, object] = {}
-        default: object = DEEP
-        for k, v in zip(expr.keys, expr.values):
-            if k is None:  # ** spread
-                inner = freshness(v, env)
-                if inner == SHARED:
-                    default = SHARED
-                elif isinstance(inner, Fresh):
-                    default = SHARED if inner.default == SHARED else default
-                    for kk, vv in inner.children.items():
-                        children.setdefault(kk, vv)
-            elif isinstance(k, ast.Constant):
-                children[k.value] = freshness(v, env)
-            else:
-                children["*"] = freshness(v, env)
-        return Fresh(children, default)
-    if isinstance(expr, (ast.List, ast.Tuple)):
-        kinds = [freshness(e, env) for e in expr.elts]
-        worst = SHARED if SHARED in kinds else (next((k for k in kinds if isinstance(k, Fresh)), DEEP))
-        return Fresh({"*": worst}, DEEP)
-    if isinstance(expr, ast.ListComp) and len(expr.generators) == 1:
-        gen = expr.generators[0]
-        it = freshness(gen.iter, env)
-        env2 = dict(env)
-        elem = SHARED if it == SHARED else DEEP if it == DEEP else it.child("*")  # type: ignore[union-attr]
-        for nm in [x.id for x in ast.walk(gen.target) if isinstance(x, ast.Name)]:
-            env2[nm] = elem
-        return Fresh({"*": freshness(expr.elt, env2)}, DEEP)
-    if isinstance(expr, ast.IfExp):
-        a, b = freshness(expr.body, env), freshness(expr.orelse, env)
-        if SHARED in (a, b):
-            return SHARED
-        return a if isinstance(a, Fresh) else b
-    if isinstance(expr, ast.BoolOp):
-        kinds = [freshness(v, env) for v in expr.values]
-        return SHARED if SHARED in kinds else kinds[0]
-    return DEEP
-
-
 def access_path(target: ast.AST) -> Tuple[Optional[str], List[object]]:
     """Root name and the subscript/attribute keys of an access expression."""
     keys: List[object] = []
@@ -173,82 +71,33 @@ def mutation_targets(fn: ast.AST) -> List[Tuple[ast.AST, ast.AST]]:
 
 
 def check_no_mutation(repo: Repo, R: Report, rule: str, rel: str, qualname: str, params: List[str]) -> int:
-    """Every mutation in the function hits an object this call owns, never one reachable from *params*."""
-    fn = repo.func(rel, qualname)
-    g = CFG(fn, may_raise=lambda p: set())
+    """Every in-place mutation in the function hits an object this call created, never one that is (part of) what
+    the caller handed in through *params*.
+
+    Decided on the normal form (private helpers inlined) by object origin (c04_rest.Flow, identity mode): the mutated
+    container expression is traced back through locals (reaching definitions), loop / comprehension targets,
+    subscripts, `.get`, conditional expressions and what was stored into the containers it is read from; a copy
+    (dict(x), {**x}, list(x), x.copy(), a comprehension, a loop that appends copies) is a new object whose children
+    are still the caller's, a deep copy is new at every depth, the result of any other call is owned by this call.
+    The mutation is a violation when one possible origin is a parameter itself or something read out of it."""
+    from .c04_rest import _show_leaf, flow_of
+
+    flow = flow_of(repo, rel, qualname, identity=True)
+    fn = flow.fn
+    owned = set(params)
     n_sites = 0
     for st, container in mutation_targets(fn):
-        root, keys = access_path(container)
+        root, _keys = access_path(container)
         if root is None or root == "self":
             continue
-        uses = g.nodes_for(stmt_of(st))
-        if not uses:
-            continue
-        # freshness of the root at this statement: worst over reaching definitions
-        verdict = _root_freshness(fn, g, root, uses[0], params, 0)
-        if verdict is None:
-            continue  # root unrelated to the parameters
+        names, _calls = flow.feeds(container)
+        if not (names & owned):
+            continue  # unrelated to the caller-owned inputs
         n_sites += 1
-        cur: object = verdict
-        for k in keys:
-            if cur in (SHARED, DEEP):
-                break
-            cur = cur.child(k)  # type: ignore[union-attr]
-        ok = cur != SHARED
-        R.check(ok, rule, rel, qualname, norm(st),
-                f"in-place mutation of an object reachable from the caller-owned `{'/'.join(params)}` (path {root}{''.join('['+repr(k)+']' for k in keys)}): the next run of the same Pipeline hashes the modified spec and gets different identities", st.lineno)
+        shared = sorted(_show_leaf(l) for l in flow.origins(container) if isinstance(l[0], ast.Name) and l[0].id in owned and l[0].id in flow.params)
+        R.check(not shared, rule, rel, qualname, norm(st),
+                f"in-place mutation of an object reachable from the caller-owned `{'/'.join(params)}` (`{norm(container)[:50]}` can be `{shared[0] if shared else ''}`): the next run of the same Pipeline hashes the modified spec and gets different identities", st.lineno)
     return n_sites
-
-
-def _root_freshness(fn, g, root: str, use: int, params: List[str], depth: int) -> Optional[object]:
-    if root in params and not reaching_defs(g, root, use):
-        return SHARED
-    if depth > 4:
-        return SHARED
-    defs = reaching_defs(g, root, use)
-    if not defs:
-        return SHARED if root in params else None
-    related = False
-    worst: object = DEEP
-    for d in defs:
-        a = d.ast
-        val = getattr(a, "value", None)
-        if d.kind == "for":
-            # loop variable: element of the iterated container
-            it_names = {x.id for x in ast.walk(a.iter) if isinstance(x, ast.Name)}
-            val_fresh = None
-            for nm in it_names:
-                f = _root_freshness(fn, g, nm, d.id, params, depth + 1)
-                if f is not None:
-                    related = True
-                    val_fresh = SHARED if f == SHARED else (f.child("*") if isinstance(f, Fresh) else DEEP)
-            f = val_fresh if val_fresh is not None else DEEP
-        elif val is None:
-            f = DEEP
-        else:
-            env: Dict[str, object] = {}
-            for nm in {x.id for x in ast.walk(val) if isinstance(x, ast.Name)}:
-                if nm == root and isinstance(a, ast.Assign) and any(isinstance(t, ast.Name) and t.id == root for t in a.targets):
-                    sub = _root_freshness(fn, g, nm, d.id, params, depth + 1)
-                else:
-                    sub = _root_freshness(fn, g, nm, d.id, params, depth + 1) if nm != root else None
-                if sub is not None:
-                    env[nm] = sub
-                    related = True
-                elif nm in params:
-                    env[nm] = SHARED
-                    related = True
-            if isinstance(a, ast.Assign) and isinstance(a.targets[0], ast.Tuple):
-                f = DEEP if isinstance(val, ast.Call) else freshness(val, env)
-            else:
-                f = freshness(val, env)
-        if f == SHARED:
-            worst = SHARED
-        elif isinstance(f, Fresh) and worst != SHARED:
-            worst = f
-    if not related and root not in params:
-        return None
-    return worst
 
 
 def no_mutation_of_hashed_input(repo: Repo, R: Report) -> None:
